@@ -161,11 +161,25 @@ func (r *schemaLoader) resolveRef(ref *Ref, target interface{}, basePath string)
 			return err
 		}
 	}
-	if rv := reflect.ValueOf(res); rv.Kind() == reflect.Ptr && rv.IsNil() {
-		// the pointer lands on an absent optional member of a typed document
+	if designatesNothing(res) {
+		// the pointer lands on a JSON null, or on an absent optional member of a typed document
 		return fmt.Errorf("reference %q designates no value: %w", ref.String(), ErrSpec)
 	}
 	return swag.DynamicJSONToStruct(res, target)
+}
+
+// designatesNothing tells apart a value from the absence of one: a nil interface,
+// or a nil pointer, map, slice or interface held by a typed document.
+func designatesNothing(res interface{}) bool {
+	if res == nil {
+		return true
+	}
+	switch rv := reflect.ValueOf(res); rv.Kind() { //nolint:exhaustive
+	case reflect.Ptr, reflect.Map, reflect.Slice, reflect.Interface:
+		return rv.IsNil()
+	default:
+		return false
+	}
 }
 
 func (r *schemaLoader) load(refURL *url.URL) (interface{}, url.URL, bool, error) {
